@@ -30,10 +30,11 @@ const (
 	STransformFunc
 	SValidate
 	SRefine
+	SExpr // hcldec.ExprSpec: a fixed expression evaluated in the caller's context
 )
 
 func (k SpecKind) String() string {
-	return [...]string{"Object", "Tuple", "Attr", "Literal", "Block", "BlockList", "BlockTuple", "BlockSet", "BlockMap", "BlockObject", "BlockAttrs", "BlockLabel", "Default", "TransformFunc", "Validate", "Refine"}[k]
+	return [...]string{"Object", "Tuple", "Attr", "Literal", "Block", "BlockList", "BlockTuple", "BlockSet", "BlockMap", "BlockObject", "BlockAttrs", "BlockLabel", "Default", "TransformFunc", "Validate", "Refine", "Expr"}[k]
 }
 
 // SpecM is the harness's own description of a decoding specification. It is turned
@@ -55,6 +56,7 @@ type SpecM struct {
 	Default    *SpecM
 	Func       string // TransformFunc name: "upper_or_same" (keeps the type) or "to_number" (always number)
 	ViaExpr    bool   // the transform is a TransformExprSpec calling Func on its variable
+	ExprVar    string // SExpr: the expression is a reference to this variable
 }
 
 // FieldNames lists object-spec field names sorted.
@@ -86,6 +88,8 @@ func (s *SpecM) Dump() string {
 		return fmt.Sprintf("Attr(%s %s req=%v)", s.Name, s.Type.FriendlyName(), s.Required)
 	case SLiteral:
 		return fmt.Sprintf("Literal(%#v)", s.Literal)
+	case SExpr:
+		return fmt.Sprintf("Expr(%s)", s.ExprVar)
 	case SBlockLabel:
 		return fmt.Sprintf("Label(%d)", s.Index)
 	case SDefault:
@@ -110,6 +114,8 @@ type SpecOpts struct {
 	NoDynamic bool
 	// BlockBias is the percentage of leaves (where a block is admissible) forced to be block specs.
 	BlockBias int
+	// ExprVars: variable names an ExprSpec may refer to (none = no ExprSpec is generated).
+	ExprVars []string
 }
 
 type specGen struct {
@@ -173,6 +179,9 @@ func (g *specGen) bodySpec(depth int, nlabels int, noDyn bool) *SpecM {
 		return &SpecM{Kind: SAttr, Name: n, Type: g.attrType(noDyn), Required: rapid.IntRange(0, 3).Draw(t, "required") == 0}
 	}
 	leaf = func(allowBlock bool) *SpecM {
+		if len(g.o.ExprVars) > 0 && !noDyn && rapid.IntRange(0, 7).Draw(t, "exprspec") == 0 {
+			return &SpecM{Kind: SExpr, ExprVar: rapid.SampledFrom(g.o.ExprVars).Draw(t, "exprvar")}
+		}
 		k := rapid.IntRange(0, 13).Draw(t, "speckind")
 		if g.o.BlockBias > 0 && allowBlock && depth > 0 && rapid.IntRange(0, 99).Draw(t, "blockbias") < g.o.BlockBias {
 			k = 10
